@@ -62,19 +62,34 @@ func childMain(t *testing.T) {
 			fmt.Fprintf(out, "START %d\n", ic.Idx)
 			out.Flush()
 			var res Result
+			emitted := false
+			emit := func(r Result) {
+				if emitted {
+					return
+				}
+				emitted = true
+				r.Idx = ic.Idx
+				b, _ := json.Marshal(r)
+				out.Write(b)
+				out.WriteByte('\n')
+				out.Flush()
+			}
 			switch ic.Case.Kind {
 			case "seq":
-				synctest.Test(t, func(t *testing.T) { res = runSeq(ic.Case) })
+				// a panic inside the manager may leave s.mu locked: the result is written from inside the bubble,
+				// before the bubble (which then cannot be left cleanly) takes the process down
+				synctest.Test(t, func(t *testing.T) {
+					res = runSeq(ic.Case)
+					if res.Panic != "" {
+						emit(res)
+					}
+				})
 			case "race":
-				res = runRace(t, ic.Case)
+				res = runRace(t, ic.Case, emit)
 			case "hammer":
 				res = runHammer(ic.Case)
 			}
-			res.Idx = ic.Idx
-			b, _ := json.Marshal(res)
-			out.Write(b)
-			out.WriteByte('\n')
-			out.Flush()
+			emit(res)
 		}
 		if err != nil {
 			break
@@ -88,6 +103,8 @@ func runSeq(c Case) (res Result) {
 	defer func() {
 		if im != nil && res.Panic == "" {
 			im.Close()
+		} else if im != nil && im.cancel != nil {
+			im.cancel()
 		}
 	}()
 	p := common.Safely(func() {
@@ -133,7 +150,7 @@ func unwrapRegister(err error) error {
 }
 
 // runRace: the same prefix, then the raced operations released together; repeated Reps times.
-func runRace(t *testing.T, c Case) (res Result) {
+func runRace(t *testing.T, c Case, emit func(Result)) (res Result) {
 	seen := map[string]int{}
 	for rep := 0; rep < c.Reps && res.Panic == "" && res.HarnessErr == ""; rep++ {
 		synctest.Test(t, func(t *testing.T) {
@@ -177,6 +194,10 @@ func runRace(t *testing.T, c Case) (res Result) {
 			})
 			if p != nil {
 				res.Panic = fmt.Sprint(p)
+				emit(res)
+				if im != nil && im.cancel != nil {
+					im.cancel()
+				}
 				return
 			}
 			if im != nil {
